@@ -164,7 +164,10 @@ Inductive c18case :=
   (* bytes the ingester received for (encoding setting, raw input) *)
 | PipeCase (enc : option string) (input : bytes) (observed : bytes)
   (* the same for long streams, both sides given as segments *)
-| SegPipeCase (enc : option string) (input : list seg) (observed : list seg).
+| SegPipeCase (enc : option string) (input : list seg) (observed : list seg)
+  (* utf-8 (identity decoder): the source delivered the input in exactly these pieces; what the
+     reader returned by StripBOM yielded in total *)
+| SplitCase (pieces : list bytes) (observed : bytes).
 
 Definition check_case (c : c18case) : bool :=
   match c with
@@ -184,4 +187,5 @@ Definition check_case (c : c18case) : bool :=
       | Ok out => bytes_eqb out (expand obs)
       | PanicNilFunc => false
       end
+  | SplitCase pieces obs => bytes_eqb (strip_bom_pieces pieces) obs
   end.
